@@ -188,6 +188,10 @@ class SolveGroupSwizzlerPartsel(object):
                 d_width += 1
                 maxval >>= 1
     
+            # Never select bits beyond the field's own width
+            if d_width > f.width:
+                d_width = f.width
+
             if self.debug > 0:
                 print("d_width: %d" % d_width)                
                 
